@@ -83,7 +83,7 @@ class C15(World):
     ASSUMPTIONS = ["placements are rigid or uniform scale (what a primitive can represent); mirrored and non-uniform matrices are generated as rejected ops"]
 
     def swarm(self, rng):
-        return {"kind": rng.choice(KINDS), "weights": swarm_weights(rng, OPS, keep_p=0.7, always=("set_param", "read")), "n_ops": rng.choice([1, 2, 3, 4, 6])}
+        return {"kind": rng.choice(KINDS), "weights": swarm_weights(rng, OPS, keep_p=0.7, always=("set_param", "read")), "n_ops": rng.choice([1, 2, 3, 4, 6] if self.TIER != "thorough" else [2, 4, 6, 9, 14])}
 
     def generate(self, rng, cfg):
         kind = cfg["kind"]
